@@ -22,7 +22,7 @@ def th_part(R, pid, tier, seed, quick_n=40, thorough_n=200):
     """run the engine, report violations of `pid` (confirmed by re-running the scenario alone); returns coverage"""
     d = C.workdir(pid + "th")
     runs = [(seed, quick_n, 8)] if tier == "quick" else [(seed + k, thorough_n, 10) for k in range(2)]
-    scen, cfgs, expect_up, samples = 0, set(), 0, []
+    scen, cfgs, expect_up, samples, unsettled = 0, set(), 0, [], 0
     cands, unconfirmed, confirmed = [], 0, None
     for s, n, ops in runs:
         lines, err = run_engine(d, s, n, ops)
@@ -40,6 +40,8 @@ def th_part(R, pid, tier, seed, quick_n=40, thorough_n=200):
                     cfgs.add(parts[1])
                 if "expectUp=1" in w[2]:
                     expect_up += 1
+                if "settled=0" in w[2]:
+                    unsettled += 1
                 if len(samples) < 3:
                     samples.append(w[2][:400])
             elif w[0] == "BAD" and w[2].startswith(pid + " "):
@@ -59,7 +61,8 @@ def th_part(R, pid, tier, seed, quick_n=40, thorough_n=200):
                      "replay": "harness twohubs -seed %d -n %d -ops %d -only %d (ops: reg/unreg/cancel/vis/invis/disc/auto/restart of hub A or B, wait<ms>; then a quiet period)" % (confirmed["seed"], confirmed["n"], confirmed["ops"], confirmed["scenario"]),
                      "candidates_first_run": len(cands), "confirmed": confirmed}, "twohubs")
     return {"twohubs_scenarios": scen, "twohubs_configurations": len(cfgs), "twohubs_expect_connection": expect_up, "twohubs_samples": samples,
-            "twohubs_candidates_not_reproduced": unconfirmed}
+            "twohubs_candidates_not_reproduced": unconfirmed,
+            "twohubs_scenarios_that_never_settled_(endless_retry:_C11/C18_not_judged_there)": unsettled}
 
 
 def check(pid, tier, seed):
